@@ -77,3 +77,129 @@ func RunEvents(opt Options, dir string, evs []Event, sink func(*Record)) {
 		}
 	}
 }
+
+// Scenario is a hand-written (or minimised) schedule: corpus files and replays.
+type Scenario struct {
+	Name   string  `json:"name,omitempty"`
+	Opt    Options `json:"opt"`
+	Events []Event `json:"events"`
+}
+
+// RunScenario executes a scenario. Besides the event kinds of doc.go it understands the macro
+// {"k":"_settle","m":rounds,"rnd":r}: repeatedly, for every live node in id order, step / run the
+// whole Ready / apply, then deliver every not-yet-delivered message once, until nothing happens or
+// the rounds are used up. Macros are expanded into concrete events (returned for the record).
+func RunScenario(sc Scenario, dir string, sink func(*Record)) []Event {
+	opt := sc.Opt
+	opt.Dir = dir
+	c, rec0, err := NewCluster(opt)
+	if c != nil {
+		defer c.Close()
+	}
+	sink(rec0)
+	if err != nil {
+		return nil
+	}
+	var done []Event
+	delivered := map[int]bool{}
+	do := func(ev Event) *Record {
+		done = append(done, ev)
+		rec := c.Apply(ev)
+		sink(rec)
+		return rec
+	}
+	for _, ev := range sc.Events {
+		if c.Panic != "" {
+			break
+		}
+		if ev.K != "_settle" {
+			if ev.K == "propose" && ev.P == 0 {
+				ev.P = c.NewPayload()
+			}
+			do(ev)
+			continue
+		}
+		rounds := ev.M
+		if rounds == 0 {
+			rounds = 20
+		}
+		for r := 0; r < rounds && c.Panic == ""; r++ {
+			progress := false
+			for _, id := range c.IDs() {
+				v := c.View(id)
+				if !v.Alive {
+					continue
+				}
+				if !v.InFlight {
+					if rec := do(Event{K: "step", N: id, Rnd: ev.Rnd}); rec.Rd != nil {
+						progress = true
+					}
+				}
+				if c.Panic == "" && c.View(id).InFlight {
+					do(Event{K: "ready", N: id, All: true})
+					progress = true
+				}
+				if v2 := c.View(id); c.Panic == "" && v2.Alive && v2.ApplyQ > 0 && !v2.Blocked && !v2.Removed {
+					do(Event{K: "apply", N: id})
+					progress = true
+				}
+			}
+			for _, mid := range append([]int(nil), c.NetIDs()...) {
+				if delivered[mid] || c.Panic != "" {
+					continue
+				}
+				m, _ := c.Msg(mid)
+				delivered[mid] = true
+				if c.View(m.To).Alive {
+					do(Event{K: "deliver", N: m.To, M: mid})
+					progress = true
+				}
+			}
+			if !progress {
+				break
+			}
+		}
+	}
+	return done
+}
+
+// RunPrefixThenGenerate replays prefix, then inject, then lets a fresh generator continue for
+// more events (used for "every crash point of a base schedule").
+func RunPrefixThenGenerate(s Schedule, prefix, inject []Event, r *rand.Rand, more int, dir string, sink func(*Record)) []Event {
+	opt := s.Opt
+	opt.Dir = dir
+	c, rec0, err := NewCluster(opt)
+	if c != nil {
+		defer c.Close()
+	}
+	sink(rec0)
+	if err != nil {
+		return nil
+	}
+	var evs []Event
+	for _, ev := range append(append([]Event(nil), prefix...), inject...) {
+		evs = append(evs, ev)
+		rec := c.Apply(ev)
+		sink(rec)
+		if rec.Panic != "" {
+			return evs
+		}
+	}
+	// payload ids must stay unique
+	for _, ev := range prefix {
+		if ev.K == "propose" && ev.P >= c.nextP {
+			c.nextP = ev.P + 1
+		}
+	}
+	g := NewGen(r, c, Profiles[s.Profile])
+	for i := 0; i < more; i++ {
+		ev := g.Next()
+		evs = append(evs, ev)
+		rec := c.Apply(ev)
+		sink(rec)
+		if rec.Panic != "" {
+			break
+		}
+	}
+	return evs
+}
